@@ -17,8 +17,10 @@ MANIFEST = {
             "(also of the sub-harmonic screen); with separate sub-harmonic draws D_sh - D_hi is a sum of squares (sh_adds_power, "
             "sh_sf_ge) given in closed form; the Generator stream pattern leaves all draws free (generator_draws_free). The model is "
             "tied to the code by running the same Lean definitions at binary64 against the real functions (injected Generator "
-            "subclass returning prescribed draws; int-seed path included); the oracle extracts the full linear map L of the real code "
-            "with unit draws and compares L L^T with the PSD-cosine sum, plus linearity, means, scaling, sub-harmonic clauses.",
+            "subclass returning prescribed draws; int-seed path included; both branches of phasescreen.ift2, the FFT-object one "
+            "proved equal to the default one for even N: fft_branch_eq); the oracle extracts the full linear map L of the real code "
+            "with respect to the STREAM of Gaussian draws (unit stream positions, whatever calls consume the stream) and compares "
+            "L L^T with the PSD-cosine sum, plus linearity, means, scaling, sub-harmonic clauses, int / NumPy-scalar parameters.",
     "note": "Trusted: Lean kernel + standard axioms; numpy.fft.ifft2 = nested naive inverse DFT sums (checked numerically each run); "
             "the linear-Gaussian bridge 'L g with g i.i.d. N(0,1) has covariance L L^T'; binary64 rounding not modelled. Unproven "
             "(numeric only, fixed configurations): convergence of the structure function to the analytic von Karman one under grid "
@@ -32,14 +34,18 @@ REQUIRED = ["psd_is_stated", "psd_sh_is_stated", "fgrid_is_stated", "fabs_sq", "
             "screen_expansion", "ensemble_cov", "stationary", "covSum_periodic", "variance_const", "zero_mean_ensemble",
             "zero_mean_spatial", "r0_scaling", "sfHi_eq", "sh_split", "lo_eq_lin", "lo_zero_mean_spatial",
             "sh_zero_mean_spatial", "sh_adds_power", "sh_sf_ge", "sfLo_closed_form", "fgridSh_is_stated", "sh_r0_scaling",
-            "generator_draws_free", "sh_stream_eq", "hi_stream_eq", "lo_linear", "sh_linear", "pinned_seed_reuse"]
+            "generator_draws_free", "sh_stream_eq", "hi_stream_eq", "lo_linear", "sh_linear", "pinned_seed_reuse",
+            "fft_branch_eq", "sh_fft_branch_eq", "fft_branch_screen_eq_lin", "domain_no_division_by_zero", "psd_pos"]
 T1_NAMES = ["psd_ft_phase_screen", "psd_ft_sh_phase_screen"]
 TOL = 1e-9
 
 
 class FakeGen(numpy.random.Generator):
-    """a numpy Generator whose normal() hands out a prescribed stream (numpy.random.default_rng passes a Generator through
-    unchanged, so the real code draws from it exactly as from a real one)"""
+    """a numpy Generator whose Gaussian draws (normal / standard_normal, any size / broadcasting / dtype / out=) are handed out
+    from a prescribed STREAM, in the order numpy fills them (C order) — numpy.random.default_rng passes a Generator through
+    unchanged, so the real code draws from it exactly as from a real one.  Only stream positions matter to the oracle, never
+    the pattern of calls; `calls` is kept for messages.  Any other sampling method falls through to the underlying PCG64,
+    whose state change is detected (`foreign`)."""
 
     def __init__(self, g):
         super().__init__(numpy.random.PCG64(0))
@@ -47,18 +53,44 @@ class FakeGen(numpy.random.Generator):
         self.pos = 0
         self.overrun = False
         self.calls = []
+        self._state0 = repr(self.bit_generator.state)
 
-    def normal(self, loc=0.0, scale=1.0, size=None):
-        shape = () if size is None else (tuple(size) if hasattr(size, "__len__") else (int(size),))
+    @property
+    def foreign(self):
+        """numbers were drawn by some method other than normal / standard_normal"""
+        return repr(self.bit_generator.state) != self._state0
+
+    def _take(self, shape):
         n = int(numpy.prod(shape)) if shape else 1
-        self.calls.append(shape)
         out = numpy.zeros(n)
         avail = self.g[self.pos:self.pos + n]
         out[:avail.size] = avail
         if avail.size < n:
             self.overrun = True
         self.pos += n
-        return loc + scale * out.reshape(shape)
+        return out.reshape(shape)
+
+    @staticmethod
+    def _shape(size, *bc):
+        if size is None:
+            return numpy.broadcast(*bc).shape if bc else ()
+        return tuple(int(x) for x in size) if hasattr(size, "__len__") else (int(size),)
+
+    def normal(self, loc=0.0, scale=1.0, size=None):
+        shape = self._shape(size, numpy.asarray(loc), numpy.asarray(scale))
+        self.calls.append(("normal", shape))
+        z = self._take(shape)
+        out = loc + scale * z
+        return float(out) if shape == () and numpy.ndim(out) == 0 else out
+
+    def standard_normal(self, size=None, dtype=numpy.float64, out=None):
+        shape = out.shape if out is not None and size is None else self._shape(size)
+        self.calls.append(("standard_normal", shape))
+        z = self._take(shape).astype(dtype)
+        if out is not None:
+            out[...] = z
+            return out
+        return float(z) if shape == () else z
 
 
 class seeded_stream:
@@ -94,40 +126,55 @@ def config(rng, N):
     return dict(N=N, r0=logu(rng, 0.05, 0.5), delta=logu(rng, 0.005, 0.5), L0=logu(rng, 1.0, 100.0), l0=logu(rng, 0.001, 0.05))
 
 
-def hi_screen(ps, c, g, r0=None):
+def _args(c, r0=None):
+    return (c["r0"] if r0 is None else r0, c["N"], c["delta"], c["L0"], c["l0"])
+
+
+def hi_screen(ps, c, g, r0=None, **kw):
     gen = FakeGen(g)
-    s = ps.ft_phase_screen(c["r0"] if r0 is None else r0, c["N"], c["delta"], c["L0"], c["l0"], seed=gen)
+    s = ps.ft_phase_screen(*_args(c, r0), seed=gen, **kw)
     return numpy.asarray(s), gen
 
 
-def sh_screen(ps, c, g, r0=None):
+def sh_screen(ps, c, g, r0=None, **kw):
     gen = FakeGen(g)
-    s = ps.ft_sh_phase_screen(c["r0"] if r0 is None else r0, c["N"], c["delta"], c["L0"], c["l0"], seed=gen)
+    s = ps.ft_sh_phase_screen(*_args(c, r0), seed=gen, **kw)
     return numpy.asarray(s), gen
 
 
-def sh_screen_intseed(ps, c, g, r0=None):
+def sh_screen_intseed(ps, c, g, r0=None, **kw):
     """ft_sh_phase_screen called with an int seed whose stream is g"""
     with seeded_stream(g) as ctx:
-        s = ps.ft_sh_phase_screen(c["r0"] if r0 is None else r0, c["N"], c["delta"], c["L0"], c["l0"], seed=12345)
+        s = ps.ft_sh_phase_screen(*_args(c, r0), seed=12345, **kw)
     gen = FakeGen(g)
     gen.pos = max([x.pos for x in ctx.gens] + [0])
     gen.overrun = any(x.overrun for x in ctx.gens)
     gen.calls = [x.calls for x in ctx.gens]
+    gen._state0 = repr(gen.bit_generator.state) if not any(x.foreign for x in ctx.gens) else None
     return numpy.asarray(s), gen
 
 
-def columns(fn, ps, c, nd):
-    """the linear map of the REAL code: column e = screen for the e-th unit draw; also the set of consumed-draw counts"""
+def stream_length(fn, ps, c):
+    """how many positions of the generator stream the real code reads (for an int seed: the furthest position read by any
+    generator built from it) — found by running it on an empty stream (positions past the end read as 0), NOT assumed.
+    Returns (length, generator)"""
+    _, gen = fn(ps, c, numpy.zeros(0))
+    return gen.pos, gen
+
+
+def columns(fn, ps, c, nd, rows=None):
+    """the linear map of the REAL code with respect to the STREAM of Gaussian draws, whatever the pattern of calls that
+    consumes it: column e = screen when stream position e is 1 and all others 0 (only pixel rows `rows` of the flattened
+    screen are kept if given); also the set of (positions consumed, overrun, foreign draws) seen"""
     N = c["N"]
-    L = numpy.empty((N * N, nd))
+    L = numpy.empty((N * N if rows is None else len(rows), nd))
     used = set()
     for e in range(nd):
         g = numpy.zeros(nd)
         g[e] = 1.0
         s, gen = fn(ps, c, g)
-        L[:, e] = s.ravel()
-        used.add((gen.pos, gen.overrun))
+        L[:, e] = s.ravel() if rows is None else s.ravel()[rows]
+        used.add((gen.pos, gen.overrun, gen.foreign))
     return L, used
 
 
@@ -229,25 +276,34 @@ def correspondence(chk, ps, quick):
                 if kind != "dense":
                     sc = max(sc, numpy.abs(hi_screen(ps, c, numpy.roll(g, N * N))[0]).max())
                 scales.append(sc); 
-                if gen.pos != nh or gen.overrun or gen.calls != [(N, N), (N, N)]:
-                    chk.broke("correspondence", "ft_phase_screen no longer draws normal((N,N)) twice (calls %s) at N=%d" % (gen.calls[:4], N))
+                if gen.pos != nh or gen.overrun or gen.foreign:
+                    chk.broke("correspondence", "ft_phase_screen reads %d positions of the Gaussian stream%s, the model 2N²=%d (calls %s) at N=%d"
+                              % (gen.pos, " and draws by other means" if gen.foreign else "", nh, gen.calls[:4], N))
                 lines.append(wire("hi", c, g)); expect.append(s); desc.append(("hi", par, N, kind, c))
                 if N % 2 == 0 and (kind == "dense" or N <= 6):
                     scales.append(sc)
                     lines.append(wire("hilin", c, g)); expect.append(s); desc.append(("hilin", par, N, kind, c))
+                if kind == "dense" or N <= 5:
+                    # the FFT-object branch of phasescreen.ift2 (fftshift∘FFT∘fftshift: differs from the default for odd N)
+                    sf_ = hi_screen(ps, c, g, FFT=numpy.fft.ifft2)[0]
+                    scales.append(sc)
+                    lines.append(wire("hifft", c, g)); expect.append(sf_); desc.append(("hifft", par, N, kind, c))
             if N > 8 and N not in (10, 12, 16):
                 continue
             # sub-harmonic screen, injected Generator: 2N² + 54 separate draws, high part first
             g = nprng.normal(size=nh + 54)
             s, gen = sh_screen(ps, c, g)
-            if gen.pos != nh + 54 or gen.overrun or gen.calls != [(N, N), (N, N)] + [(3, 3)] * 6:
-                chk.broke("correspondence", "ft_sh_phase_screen with an injected Generator no longer draws 2N² then 6×(3,3) (calls %s) at N=%d"
-                          % (gen.calls[:10], N))
+            if gen.pos != nh + 54 or gen.overrun or gen.foreign:
+                chk.broke("correspondence", "ft_sh_phase_screen with an injected Generator reads %d positions of the Gaussian stream%s, the "
+                          "model 2N²+54=%d (calls %s) at N=%d" % (gen.pos, " and draws by other means" if gen.foreign else "", nh + 54,
+                                                                 gen.calls[:10], N))
             scales.append(None); lines.append(wire("sh", c, g, "0 ")); expect.append(s); desc.append(("sh-generator", par, N, "dense", c))
             hi_part, _ = hi_screen(ps, c, g[:nh])
             scales.append(numpy.abs(s).max()); lines.append(wire("lolin", c, g[nh:])); expect.append(s - hi_part); desc.append(("lolin", par, N, "dense", c))
             if N > 8:                 # the interpreted model needs N⁴·27 complex exponentials per sub-harmonic screen
                 continue
+            sf_ = sh_screen(ps, c, g, FFT=numpy.fft.ifft2)[0]
+            scales.append(None); lines.append(wire("shfft", c, g)); expect.append(sf_); desc.append(("shfft", par, N, "dense", c))
             # int seed: one generator built from the seed serves both parts
             seed = chk.rng.randrange(1, 2 ** 31)
             g = numpy.random.default_rng(seed).normal(size=nh + 54)
@@ -279,8 +335,39 @@ def correspondence(chk, ps, quick):
                           % (op, N, {k: c[k] for k in ("r0", "delta", "L0", "l0")}, err, scale, kind))
 
 
+def probe(chk, fn, ps, c, what, model_nd, tag):
+    """length of the Gaussian stream the real code reads.  HOW the code draws (which Generator method, in how many calls of
+    what shape, how many numbers) is not part of the property: a difference from the model is reported as broken
+    correspondence, never as a violation, and the oracle goes on with the length found."""
+    nd, gen = stream_length(fn, ps, c)
+    if gen.foreign:
+        chk.broke("correspondence", "%s draws random numbers by other means than Generator.normal / standard_normal at %s (calls %s): "
+                  "it cannot be probed with unit draws" % (what, tag, gen.calls[:6]))
+        return None
+    if nd != model_nd:
+        chk.broke("correspondence", "%s reads %d positions of the Gaussian stream, the model %d (calls %s) at %s"
+                  % (what, nd, model_nd, gen.calls[:8], tag))
+    if nd > 4 * model_nd + 64:
+        return None
+    return nd
+
+
+def naive_ifft2(x):
+    """an 'FFT object' that is not numpy's: inverse DFT by matrix products"""
+    n = x.shape[0]
+    j = numpy.arange(n)
+    Wi = numpy.exp(2j * numpy.pi * numpy.outer(j, j) / n) / n
+    return Wi @ x @ Wi
+
+
+def fft_objects():
+    import scipy.fft
+    return [("numpy.fft.ifft2", numpy.fft.ifft2), ("scipy.fft.ifft2", scipy.fft.ifft2), ("naive-inverse-DFT", naive_ifft2)]
+
+
 def oracle_config(chk, ps, c, nprng, do_sh=True):
-    """all clauses of the property on the REAL code for one configuration (even N)"""
+    """all clauses of the property on the REAL code for one configuration (even N).  The screen is probed as a function of
+    the STREAM of Gaussian draws its generator hands out (unit stream positions), whatever calls consume that stream."""
     N = c["N"]
     nh = 2 * N * N
     rep = dict(c)
@@ -292,29 +379,35 @@ def oracle_config(chk, ps, c, nprng, do_sh=True):
     chk.oracle_cases += 1
     chk.count("oracle:N=%d" % N)
     chk.case(("oracle", repr(sorted(c.items()))), sample=dict(c) if N in (8, 16) else None)
-    L, used = columns(hi_screen, ps, c, nh)
-    if used != {(nh, False)}:
-        bad("draws:hi", "ft_phase_screen consumed %s draws, expected exactly 2N²=%d" % (sorted(used), nh))
+    nd = probe(chk, hi_screen, ps, c, "ft_phase_screen", nh, tag)
+    if nd is None:
+        return
+    L, used = columns(hi_screen, ps, c, nd)
+    if used != {(nd, False, False)}:
+        chk.broke("correspondence", "ft_phase_screen: the number of draws depends on the values drawn (%s) at %s" % (sorted(used)[:3], tag))
     if not numpy.all(numpy.isfinite(L)):
         bad("finite:hi", "screen of a unit draw is not finite")
         return
     scale = numpy.abs(L).max() + 1e-300
     # linear function of the draws
-    g1, g2 = nprng.normal(size=nh), nprng.normal(size=nh)
+    g1, g2 = nprng.normal(size=nd), nprng.normal(size=nd)
     al, be = chk.rng.uniform(-2, 2), chk.rng.uniform(-2, 2)
     s1, s2, s12 = hi_screen(ps, c, g1)[0], hi_screen(ps, c, g2)[0], hi_screen(ps, c, al * g1 + be * g2)[0]
-    lin_scale = scale * nh
+    lin_scale = scale * max(nd, 1)
     if numpy.abs(s12 - (al * s1 + be * s2)).max() > TOL * lin_scale:
         bad("linear:hi", "screen(αg+βg') ≠ α screen(g) + β screen(g') (err %.3g)" % numpy.abs(s12 - (al * s1 + be * s2)).max(),
             alpha=al, beta=be)
     if numpy.abs(L @ g1 - s1.ravel()).max() > TOL * lin_scale:
         bad("linear:hi:columns", "screen(g) ≠ Σ_e g_e·screen(unit e) (err %.3g)" % numpy.abs(L @ g1 - s1.ravel()).max())
-    # the optional FFT-object path of phasescreen.ift2 (even N: both shifts coincide) with numpy's own inverse transform
-    gen = FakeGen(g1)
-    sf_ = numpy.asarray(ps.ft_phase_screen(c["r0"], N, c["delta"], c["L0"], c["l0"], FFT=numpy.fft.ifft2, seed=gen))
-    if numpy.abs(sf_ - s1).max() > TOL * lin_scale:
-        bad("fft-object:hi", "ft_phase_screen(FFT=numpy.fft.ifft2) differs from the default path (err %.3g)" % numpy.abs(sf_ - s1).max())
-    z = hi_screen(ps, c, numpy.zeros(nh))[0]
+    # the optional FFT-object branch of phasescreen.ift2 (another shift pair; theorem fft_branch_eq: the same function for
+    # even N) with several objects that compute the inverse transform
+    for oname, obj in fft_objects():
+        sf_ = hi_screen(ps, c, g1, FFT=obj)[0]
+        chk.count("oracle:fft-object")
+        if sf_.shape != s1.shape or not numpy.abs(sf_ - s1).max() <= TOL * lin_scale:
+            bad("fft-object:hi", "ft_phase_screen(FFT=%s) differs from the default path (err %.3g)"
+                % (oname, numpy.abs(sf_ - s1).max() if sf_.shape == s1.shape else float("nan")), fft=oname)
+    z = hi_screen(ps, c, numpy.zeros(nd))[0]
     if numpy.abs(z).max() > 1e-12 * scale:
         bad("zero-mean:ensemble:hi", "screen of the zero draw is not zero (max %.3g): the ensemble mean is not zero" % numpy.abs(z).max())
     # exact ensemble covariance
@@ -334,7 +427,7 @@ def oracle_config(chk, ps, c, nprng, do_sh=True):
     s_1, s_2 = chk.rng.randrange(N), chk.rng.randrange(N)
     if numpy.abs(numpy.roll(C4, (s_1, s_2, s_1, s_2), (0, 1, 2, 3)) - C4).max() > TOL * cs:
         bad("stationary:hi", "covariance is not a function of the separation (shift %d,%d)" % (s_1, s_2), shift=(s_1, s_2))
-    colsum = numpy.abs(L.sum(0)).max()
+    colsum = numpy.abs(L.sum(0)).max() if nd else 0.0
     if colsum > TOL * scale * N * N:
         bad("zero-mean:spatial:hi", "a screen does not sum to zero over the grid (DC not removed?): |Σ| = %.3g" % colsum)
     # r0 scaling for a fixed stream
@@ -343,51 +436,71 @@ def oracle_config(chk, ps, c, nprng, do_sh=True):
     if numpy.abs(sc - cc ** (-5.0 / 6.0) * s1).max() > TOL * numpy.abs(s1).max():
         bad("r0-scaling:hi", "screen(c·r0) ≠ c^(-5/6)·screen(r0) for fixed draws, c=%.6g (ratio %.9g, expected %.9g)"
             % (cc, float(numpy.abs(sc).max() / numpy.abs(s1).max()), cc ** (-5.0 / 6.0)), c=cc)
+    # int seed: the screen is the same linear map applied to numpy's normal stream of that seed
+    seed = chk.rng.randrange(1, 2 ** 31)
+    si = numpy.asarray(ps.ft_phase_screen(*_args(c), seed=seed))
+    if numpy.abs(L @ numpy.random.default_rng(seed).normal(size=nd) - si.ravel()).max() > TOL * lin_scale:
+        chk.broke("correspondence", "ft_phase_screen(seed=<int>) is not reproduced by replaying numpy's normal stream of that seed "
+                  "through the probed linear map at %s" % tag)
     if not do_sh:
         return
-    # ---- sub-harmonic variant, injected Generator: separate draws
-    Ls, used = columns(sh_screen, ps, c, nh + 54)
-    if used != {(nh + 54, False)}:
-        bad("draws:sh", "ft_sh_phase_screen consumed %s draws, expected exactly 2N²+54=%d" % (sorted(used), nh + 54))
+    # ---- sub-harmonic variant, injected Generator
+    nds = probe(chk, sh_screen, ps, c, "ft_sh_phase_screen (injected Generator)", nh + 54, tag)
+    if nds is None:
+        return
+    Ls, used = columns(sh_screen, ps, c, nds)
+    if used != {(nds, False, False)}:
+        chk.broke("correspondence", "ft_sh_phase_screen: the number of draws depends on the values drawn (%s) at %s" % (sorted(used)[:3], tag))
     if not numpy.all(numpy.isfinite(Ls)):
         bad("finite:sh", "sub-harmonic screen of a unit draw is not finite")
         return
-    if numpy.abs(Ls[:, :nh] - L).max() > TOL * scale:
-        bad("sh:hi-part", "ft_sh_phase_screen with zero sub-harmonic draws differs from ft_phase_screen (err %.3g)"
-            % numpy.abs(Ls[:, :nh] - L).max())
-    Llo = Ls[:, nh:]
+    # which stream positions feed which part is HOW, not WHAT (correspondence): the model says high-frequency part first
+    if nds < nd or numpy.abs(Ls[:, :nd] - L).max() > TOL * scale:
+        chk.broke("correspondence", "with an injected Generator the first %d stream positions of ft_sh_phase_screen do not give the "
+                  "ft_phase_screen screen (model: high-frequency draws first, then 54 sub-harmonic ones) at %s" % (nd, tag))
     sscale = numpy.abs(Ls).max() + 1e-300
-    g3 = nprng.normal(size=nh + 54)
+    g3 = nprng.normal(size=nds)
     s3 = sh_screen(ps, c, g3)[0]
-    if numpy.abs(Ls @ g3 - s3.ravel()).max() > TOL * sscale * (nh + 54):
+    if numpy.abs(Ls @ g3 - s3.ravel()).max() > TOL * sscale * nds:
         bad("linear:sh", "sh screen(g) ≠ Σ_e g_e·screen(unit e) (err %.3g)" % numpy.abs(Ls @ g3 - s3.ravel()).max())
+    for oname, obj in fft_objects():
+        sf_ = sh_screen(ps, c, g3, FFT=obj)[0]
+        if sf_.shape != s3.shape or not numpy.abs(sf_ - s3).max() <= TOL * sscale * nds:
+            bad("fft-object:sh", "ft_sh_phase_screen(FFT=%s) differs from the default path (err %.3g)"
+                % (oname, numpy.abs(sf_ - s3).max() if sf_.shape == s3.shape else float("nan")), fft=oname)
     if numpy.abs(Ls.sum(0)).max() > TOL * sscale * N * N:
         bad("zero-mean:spatial:sh", "a sub-harmonic screen does not sum to zero over the grid: |Σ| = %.3g" % numpy.abs(Ls.sum(0)).max())
-    Dh, Ds = sf(C), sf(Ls @ Ls.T)
+    Cs = Ls @ Ls.T
+    Dh, Ds = sf(C), sf(Cs)
     dscale = numpy.abs(Ds).max() + 1e-300
     if (Ds - Dh).min() < -TOL * dscale:
         w = numpy.unravel_index((Ds - Dh).argmin(), Ds.shape)
         bad("sh:sf-decrease", "a structure-function value decreases when sub-harmonics are added: pixels %s,%s D_sh=%.9g D_hi=%.9g"
             % (divmod(int(w[0]), N), divmod(int(w[1]), N), Ds[w], Dh[w]))
-    Clo = Llo @ Llo.T
+    # what is added: covariance of the sub-harmonic screen minus that of the plain screen, against the 24 sub-harmonic
+    # frequencies with the von Kármán spectrum (no partition of the stream into 'high' and 'low' draws is assumed)
     Cloref = lo_cov_reference(c)
-    if numpy.abs(Clo - Cloref).max() > TOL * (numpy.abs(Cloref).max() + 1e-300):
-        bad("sh:lo-cov", "the added low-frequency part does not have the von Kármán spectrum on the three 3×3 grids 1/(3^p N δ) "
-            "(max err %.3g of %.3g)" % (numpy.abs(Clo - Cloref).max(), numpy.abs(Cloref).max()))
+    csscale = numpy.abs(Cs).max() + 1e-300
+    if numpy.abs((Cs - C) - Cloref).max() > TOL * csscale:
+        bad("sh:lo-cov", "what the sub-harmonic variant adds to the covariance is not the von Kármán spectrum on the three 3×3 grids "
+            "1/(3^p N δ), mean removed (max err %.3g, added part %.3g, total %.3g)"
+            % (numpy.abs((Cs - C) - Cloref).max(), numpy.abs(Cloref).max(), csscale))
     s3c = sh_screen(ps, c, g3, r0=cc * c["r0"])[0]
     if numpy.abs(s3c - cc ** (-5.0 / 6.0) * s3).max() > TOL * numpy.abs(s3).max():
         bad("r0-scaling:sh", "sh screen(c·r0) ≠ c^(-5/6)·screen(r0) for fixed draws, c=%.6g" % cc, c=cc)
-    Dlo = sf(Clo)
+    Dlo = sf(Cloref)
     if numpy.abs((Ds - Dh) - Dlo).max() > TOL * dscale:
         bad("sh:adds-power", "D_sh − D_hi is not the structure function of the low-frequency part alone (max err %.3g)"
             % numpy.abs((Ds - Dh) - Dlo).max())
     # ---- int seed: probed with unit draws through a patched default_rng (fresh generator per default_rng(seed) call)
-    G = nh + 54
+    G = probe(chk, sh_screen_intseed, ps, c, "ft_sh_phase_screen (seed=<int>)", nh + 54, tag)
+    if G is None:
+        return C, Ls
     M, used = columns(sh_screen_intseed, ps, c, G)
     seed = chk.rng.randrange(1, 2 ** 31)
     g = numpy.random.default_rng(seed).normal(size=G)
-    si = numpy.asarray(ps.ft_sh_phase_screen(c["r0"], N, c["delta"], c["L0"], c["l0"], seed=seed))
-    if numpy.abs(M @ g - si.ravel()).max() > TOL * sscale * G:
+    si = numpy.asarray(ps.ft_sh_phase_screen(*_args(c), seed=seed))
+    if numpy.abs(M @ g - si.ravel()).max() > TOL * sscale * max(G, 1):
         chk.broke("correspondence", "the int-seed path of ft_sh_phase_screen is not reproduced by replaying numpy's normal stream of that "
                   "seed through the probed linear map at %s (numpy stream not chunk-invariant, or the seed is used otherwise)" % tag)
         return C, Ls
@@ -403,45 +516,125 @@ def oracle_config(chk, ps, c, nprng, do_sh=True):
         bad("sh-intseed:cross-power", "seed=<int>: the sub-harmonics do not only add low-frequency power — D_sh − D_hi differs from the "
             "structure function of the low-frequency part (cross terms with high-frequency coefficients): pixels %s,%s got %.9g expected %.9g"
             % (divmod(int(w[0]), N), divmod(int(w[1]), N), (Dm - Dh)[w], Dlo[w]), seed_kind="int")
-    if used != {(nh + 54, False)}:
-        bad("draws:sh-intseed", "seed=<int>: ft_sh_phase_screen read stream positions up to %s, expected exactly 2N²+54=%d separate draws"
-            % (sorted(u[0] for u in used), nh + 54), seed_kind="int")
     return C, Ls
 
 
+PARAM_TYPES = [("int", int, TOL), ("numpy.int64", numpy.int64, TOL), ("numpy.int32", numpy.int32, TOL),
+               ("numpy.float64", numpy.float64, TOL), ("0-d array", numpy.array, TOL),
+               # single-precision scalars: the sub-harmonic part is then evaluated partly in float32 (observed 3e-8 relative)
+               ("numpy.float32", numpy.float32, 1e-5)]
+
+
+def param_types(chk, ps, quick):
+    """r0, delta, L0, l0 given as Python ints / NumPy scalars (and N as a NumPy integer) denote the same real numbers: the
+    screen must be the one obtained with Python floats"""
+    for it in range(3 if quick else 12):
+        N = chk.rng.choice([4, 6, 8, 10])
+        vals = dict(r0=chk.rng.choice([1, 2]), delta=chk.rng.choice([1, 2]), L0=chk.rng.choice([5, 20, 300]), l0=chk.rng.choice([1, 2]))
+        frac = config(chk.rng, N)
+        for fname, nd, intseed in (("ft_phase_screen", 2 * N * N, False), ("ft_sh_phase_screen", 2 * N * N + 54, False),
+                                   ("ft_sh_phase_screen", 0, True), ("ft_phase_screen", 0, True)):
+            f = getattr(ps, fname)
+            g = numpy.random.default_rng(chk.rng.getrandbits(32)).normal(size=nd)
+            iseed = chk.rng.randrange(2 ** 31)
+
+            def call(r0, n, delta, L0, l0):
+                return numpy.asarray(f(r0, n, delta, L0, l0, seed=iseed if intseed else FakeGen(g)))
+            for tname, conv, tol in PARAM_TYPES:
+                # integer values in every type; fractional values only in the floating types (compared at the converted value)
+                for src in ([vals] if "int" in tname else [vals, frac]):
+                    a = {k: conv(src[k]) for k in ("r0", "delta", "L0", "l0")}
+                    ref = call(*[float(a["r0"]), N] + [float(a[k]) for k in ("delta", "L0", "l0")])
+                    chk.oracle_cases += 1
+                    chk.count("oracle:param-type:" + tname)
+                    chk.case(("param-type", fname, intseed, tname, N, repr(sorted((k, float(v)) for k, v in a.items()))),
+                             sample={"fn": fname, "type": tname, "N": N, **{k: float(v) for k, v in a.items()}} if it == 0 and intseed else None)
+                    rep = dict(fn=fname, type=tname, N=N, int_seed=intseed, **{k: float(v) for k, v in a.items()})
+                    for what, nn in (("", N), (" and N a numpy.int64", numpy.int64(N))):
+                        try:
+                            s = call(a["r0"], nn, a["delta"], a["L0"], a["l0"])
+                        except Exception as ex:
+                            chk.fail("param-type:%s:%s:raises" % (fname, tname), "%s with r0, delta, L0, l0 of type %s%s raises %r (values %s, N=%d)"
+                                     % (fname, tname, what, ex, {k: float(v) for k, v in a.items()}, N), rep)
+                            continue
+                        err = float(numpy.abs(s - ref).max()) if s.shape == ref.shape else float("inf")
+                        if not err <= tol * numpy.abs(ref).max():
+                            chk.fail("param-type:%s:%s" % (fname, tname), "%s with r0, delta, L0, l0 of type %s%s differs from the call with the "
+                                     "same values as Python floats by %.3g (screen max %.3g; values %s, N=%d)"
+                                     % (fname, tname, what, err, numpy.abs(ref).max(), {k: float(v) for k, v in a.items()}, N), rep)
+
+
 def numeric_clauses(chk, ps, quick):
-    """the clauses no theorem carries, on fixed configurations (deterministic): closer to the analytic structure function at
-    large separations with sub-harmonics; error at fixed pixel separation shrinks when the grid is refined (N doubled)"""
+    """the clauses no theorem carries, on fixed configurations (deterministic), ensemble structure functions of the REAL code
+    along the middle pixel row from unit draws:
+      * closer to the analytic von Kármán structure function at large separations (N/4..N/2 pixels) with sub-harmonics;
+      * refinement (a) larger grid, same pixel: the relative error at EACH of the separations 1, 2, 4 and N₀/4.. pixels
+        shrinks every time N is doubled;  (b) finer AND larger grid ((N, δ) → (4N, δ/2): twice the extent, half the pixel):
+        the relative error at the same physical separations δ₀, 2δ₀, 4δ₀ shrinks."""
     from scipy.special import gamma, kv
 
     def dvk(r, r0, L0):
         r = numpy.maximum(r, 1e-12)
         return 0.17253 * (L0 / r0) ** (5. / 3) * (1 - 2 * numpy.pi ** (5. / 6) / gamma(5. / 6) * (r / L0) ** (5. / 6) * kv(5. / 6, 2 * numpy.pi * r / L0))
 
-    def row_sf(L, N):
+    def row_sf(fn, c, nd):
+        """D between pixel (N/2, 0) and (N/2, s), s = 0..N-1, summed over the whole draw basis"""
+        N = c["N"]
         i0 = (N // 2) * N
-        Cr = L[i0:i0 + N] @ L[i0:i0 + N].T
+        Lr, _ = columns(fn, ps, c, nd, rows=numpy.arange(i0, i0 + N))
+        Cr = Lr @ Lr.T
         d = numpy.diag(Cr)
         return d[0] + d - 2 * Cr[0]
 
-    for (r0, delta, L0, l0) in [(0.15, 0.05, 20., 0.005)] + ([] if quick else [(0.1, 0.02, 10., 0.002), (0.2, 0.1, 50., 0.01)]):
-        prev = None
-        for N in (16, 32) if quick else (16, 32, 64):
+    def relerr(d, c, seps):
+        an = dvk(numpy.asarray(seps, dtype=float) * c["delta"], c["r0"], c["L0"])
+        return numpy.abs(d[list(seps)] - an) / an
+
+    confs = [(0.15, 0.05, 20., 0.005)] + ([] if quick else [(0.1, 0.02, 10., 0.002), (0.2, 0.1, 50., 0.01)])
+    worst = []
+    for (r0, delta, L0, l0) in confs:
+        prev, prev_sh = None, None
+        seps = (1, 2, 4, 6, 8)
+        e_first = None
+        for N in (16, 32, 64):
             c = dict(N=N, r0=r0, delta=delta, L0=L0, l0=l0)
             chk.oracle_cases += 1
             chk.case(("numeric", N, r0, delta, L0, l0))
-            Lh, _ = columns(hi_screen, ps, c, 2 * N * N)
-            Ls, _ = columns(sh_screen, ps, c, 2 * N * N + 54)
-            dh, ds = row_sf(Lh, N), row_sf(Ls, N)
+            dh = row_sf(hi_screen, c, 2 * N * N)
             an = dvk(numpy.arange(N) * delta, r0, L0)
-            sel = slice(N // 4, N // 2 + 1)
-            if not numpy.all(numpy.abs(ds - an)[sel] < numpy.abs(dh - an)[sel]):
-                chk.fail("numeric:sh-closer-large-sep", "with sub-harmonics the ensemble structure function is not closer to the analytic von "
-                         "Kármán one at separations N/4..N/2 (N=%d r0=%g δ=%g L0=%g)" % (N, r0, delta, L0), c)
-            e1 = abs(dh[1] - an[1]) / an[1]
-            if prev is not None and not e1 < prev:
-                chk.fail("numeric:refinement", "relative error of D(δ) does not shrink when N is doubled to %d (%.4g -> %.4g)" % (N, prev, e1), c)
-            prev = e1
+            do_sh = N <= 32 or not quick
+            if do_sh:
+                ds = row_sf(sh_screen, c, 2 * N * N + 54)
+                sel = slice(N // 4, N // 2 + 1)
+                if not numpy.all(numpy.abs(ds - an)[sel] < numpy.abs(dh - an)[sel]):
+                    chk.fail("numeric:sh-closer-large-sep", "with sub-harmonics the ensemble structure function is not closer to the analytic von "
+                             "Kármán one at separations N/4..N/2 (N=%d r0=%g δ=%g L0=%g)" % (N, r0, delta, L0), c)
+                e_sh = relerr(ds, c, seps)
+                if prev_sh is not None and not numpy.all(e_sh < prev_sh):
+                    chk.fail("numeric:refinement:sh", "sub-harmonic variant: the relative error of D at separations %s pixels does not shrink when N "
+                             "is doubled to %d (%s -> %s)" % (seps, N, numpy.round(prev_sh, 4).tolist(), numpy.round(e_sh, 4).tolist()), c)
+                if prev_sh is not None:
+                    worst.append(float((e_sh / prev_sh).max()))
+                prev_sh = e_sh
+            e = relerr(dh, c, seps)
+            if e_first is None:
+                e_first = e
+            if prev is not None and not numpy.all(e < prev):
+                chk.fail("numeric:refinement", "the relative error of D at separations %s pixels does not shrink when N is doubled to %d "
+                         "(%s -> %s)" % (seps, N, numpy.round(prev, 4).tolist(), numpy.round(e, 4).tolist()), c)
+            if prev is not None:
+                worst.append(float((e / prev).max()))
+            prev = e
+        # (b) twice the extent AND half the pixel: (16, δ) -> (64, δ/2), same physical separations δ, 2δ, 4δ
+        c = dict(N=64, r0=r0, delta=delta / 2, L0=L0, l0=l0)
+        chk.oracle_cases += 1
+        chk.case(("numeric-joint", 64, r0, delta / 2, L0, l0))
+        e_fine = relerr(row_sf(hi_screen, c, 2 * 64 * 64), c, (2, 4, 8))
+        if not numpy.all(e_fine < e_first[:3]):
+            chk.fail("numeric:refinement:joint", "the relative error of D at the physical separations δ, 2δ, 4δ (δ=%g) does not shrink from the grid "
+                     "(16, δ) to (64, δ/2): %s -> %s" % (delta, numpy.round(e_first[:3], 4).tolist(), numpy.round(e_fine, 4).tolist()), c)
+        worst.append(float((e_fine / e_first[:3]).max()))
+    chk.notes.append("refinement: largest ratio of successive relative errors (must be < 1): %.3f" % max(worst))
 
 
 def run(chk):
@@ -450,15 +643,31 @@ def run(chk):
                 "sub-harmonic grids, mean removal, generator-stream order) vs ft_phase_screen / ft_sh_phase_screen with an injected Generator "
                 "(dense and unit draws) and with an int seed, N in 2..8 incl. odd (thorough: to 16), max-norm tol 1e-9·scale; oracle: full linear "
                 "map L of the real code from unit draws, L·Lᵀ vs the PSD-cosine sum (1e-9), linearity, zero draw, column sums, stationarity, "
-                "variance, r0 scaling, sub-harmonic structure function; distinct = distinct (op, N, draws, parameters)")
+                "variance, r0 scaling, FFT-object branch with three inverse-transform objects, sub-harmonic structure function and added "
+                "covariance (C_sh − C_hi vs the 24 sub-harmonic frequencies), parameters as int / NumPy scalars (1e-9; float32 scalars 1e-5); "
+                "L is taken with respect to the generator STREAM (normal and standard_normal, any call shapes): stream length / order / "
+                "method differences from the model are reported as broken correspondence, never as violations; "
+                "distinct = distinct (op, N, draws, parameters)")
     chk.assumptions = [
         "linear-Gaussian bridge: for i.i.d. N(0,1) draws g the covariance of L·g is L·Lᵀ (ensemble covariance is read as Σ_e φ_e(p)φ_e(q))",
         "numpy.fft.ifft2 = nested naive inverse DFT sums, fftshift/ifftshift = rotations by n//2 (contract checked numerically each run)",
-        "NOT PROVED (numeric, fixed configurations): the structure function approaches the analytic von Kármán one as the grid is refined",
+        "NOT PROVED (numeric, fixed configurations, real code): the structure function approaches the analytic von Kármán one as the grid is "
+        "refined — tested as: relative error at each of the separations 1,2,4,6,8 pixels shrinks at every doubling N=16,32,64 (fixed pixel), "
+        "and at the physical separations δ,2δ,4δ from grid (16,δ) to (64,δ/2); also for the sub-harmonic variant (N=16,32; thorough 64)",
         "NOT PROVED (numeric, fixed configurations): the sub-harmonic variant is closer to the analytic curve at large separations",
         "int seed = 'every default_rng(seed) call replays the same stream' (numpy's contract; the int-seed path is probed through a patched "
         "default_rng and re-validated against a real int seed on every configuration)",
         "IEEE rounding and numpy broadcasting are not modelled (model run at binary64 agrees with the code to 1e-9)",
+        "the FFT= object of ft_phase_screen / ft_sh_phase_screen is contracted to compute numpy.fft.ifft2 (run with numpy.fft.ifft2, "
+        "scipy.fft.ifft2 and a matrix-product inverse DFT); for even N the branch is PROVED equal to the default one (fft_branch_eq), for odd N "
+        "it differs (outside the property) and is only tied to the model by the correspondence run",
+        "psd_is_stated / fgrid_is_stated / … are equations between Lean's TOTAL operations (x/0 = 0, real powers of non-positive bases): they "
+        "describe the Python code only for N>0, delta>0, r0>0, L0>0, l0>0 (domain_no_division_by_zero: on that domain no model division has a "
+        "zero denominator); outside it Python raises / returns nan and nothing is claimed",
+        "the screen is probed as a function of the stream returned by Generator.normal / Generator.standard_normal; code that drew Gaussians "
+        "by another route (uniforms + Box-Muller, RandomState, …) is reported as broken correspondence (cannot be probed), not as a violation",
+        "parameters of type numpy.float32 are only required to reproduce the double-precision screen to 1e-5 (ft_sh_phase_screen does not "
+        "cast r0, L0, l0 to float as ft_phase_screen does: the sub-harmonic part is then evaluated partly in single precision, observed 3e-8)",
     ]
     from aotools.turbulence import phasescreen as ps
     meta = t1check.regenerate(chk)
@@ -495,4 +704,5 @@ def run(chk):
     # even sizes with a large prime factor (FFT implementations treat them differently from 2^a 3^b 5^c sizes)
     for N in ([26] if quick else [26, 34, 38]):
         oracle_config(chk, ps, config(chk.rng, N), nprng, do_sh=False)
+    param_types(chk, ps, quick)
     numeric_clauses(chk, ps, quick)
